@@ -48,9 +48,9 @@ non-trivial = has >= 1 data block; distinct = distinct (block subset, pointer or
             obs.case(cmp31::shape(&spec));
         }
         let replay = json!({"subset": subset, "permute": permute, "case_index": i, "body_hex": crate::ev::hex(&body[..body.len().min(4096)]), "body_len": body.len()});
-        // the stream decoder resumes where the last-pointed block ends, so only contiguous layouts
-        // (last-pointed block physically last) can be framed as a stream (C03 owns framing)
-        let via_stream = i % 3 == 0 && spec.is_contiguous();
+        // the stream decoder resumes where the last-pointed block ends, so only layouts whose
+        // last-pointed block is physically last can be framed as a stream (C03 owns framing)
+        let via_stream = i % 3 == 0 && spec.is_frameable();
         let decoded = if via_stream {
             let mh = MsgHeader::realistic(&mut rng, 31);
             let bytes = msg31_bytes(&mh, &body);
@@ -110,6 +110,39 @@ non-trivial = has >= 1 data block; distinct = distinct (block subset, pointer or
                         obs.violation(format!("field {}", d.field), d.detail.clone(), replay.clone());
                     }
                 }
+            }
+        }
+        // A *namesake*: one case in sixteen is followed at once, on the same thread, by a different
+        // message that shares this one's identity fields (radar, date, time, azimuth and elevation
+        // numbers) - the same cut seen in another volume scan, say.  Everything else is drawn afresh,
+        // and it must decode to its own contents.
+        if i % 16 == 3 {
+            let mut rng2 = Rng::derive(seed, 2002, i);
+            let subset2 = if rng2.chance(1, 2) { subset } else { rng2.below(1024) as u16 };
+            let permute2 = rng2.chance(1, 2);
+            let mut twin = gen_msg31(&mut rng2, subset2, permute2, false);
+            twin.hdr.id = spec.hdr.id;
+            twin.hdr.date = spec.hdr.date;
+            twin.hdr.elev_num = spec.hdr.elev_num;
+            if rng2.chance(1, 2) {
+                twin.hdr.time = spec.hdr.time;
+                twin.hdr.az_num = spec.hdr.az_num;
+            }
+            twin.hdr.status = *rng2.pick(&[0u8, 1, 1, 2, 3, 4, 5]);
+            let body2 = twin.encode(&mut rng2);
+            let replay2 = json!({"case_index": i, "namesake_of_the_previous_message": true, "body_hex": crate::ev::hex(&body2[..body2.len().min(4096)]), "body_len": body2.len()});
+            match mon::catch(|| decode_digital_radar_data(&mut Cursor::new(&body2[..]))) {
+                Ok(Ok(m2)) => {
+                    let diffs = cmp31::compare(&twin, &m2);
+                    if diffs.is_empty() {
+                        obs.count("namesake_messages_field_exact", 1);
+                    }
+                    for d in diffs.iter().take(3) {
+                        obs.violation(format!("field {}", d.field), format!("{} [a message sharing identity fields with the one decoded just before]", d.detail), replay2.clone());
+                    }
+                }
+                Ok(Err(e)) => obs.violation("well-formed message refused: decode error", format!("{e:?} [namesake]"), replay2),
+                Err(p) => obs.violation(format!("well-formed message refused: {}", p.signature()), p.message, replay2),
             }
         }
         if obs.want_sample() && i % 997 == 3 {
